@@ -154,6 +154,17 @@ CHECKS = {
         "components": {"real": REAL + ["hint wrapper hook (constraint/verifhook, -tags verif)"], "stub": ["hint answers under fault (byzantine solver oracle)", "commitment challenge in solver-only runs (hash of the committed values, as under Fiat-Shamir)"]},
         "assumptions": ["only the dishonest-prover clause is decided; equality with the mathematical result under honest hints is the baseline of the same runs", "the nemesis does not adapt its answers to the commitment challenge (it acts before the commitment, as a real prover must)"],
     },
+    "C16": {
+        "engine": "c16",
+        "level": "fault_enumeration",
+        "rule": "one evaluation = one evaluation (test engine; compiled solver for the twisted Edwards cases) of a curve / signature gadget under a plan of faulted hint answers (scalar decompositions, half-GCD, hinted scalar-multiplication results, pairing residue witnesses, recovered public keys: perturbed, swapped, misdirected, replayed, element-level negation / alias / exchange / transfer, degenerate all-zero and all-one answers combined with a perturbed second hint, sign flip, failed), judged by an independent math/big reference (affine short Weierstrass and twisted Edwards arithmetic, ECDSA equation) or gnark-crypto (pairings, BLS12-377 G1); "
+                "a case = (gadget in {sw_emulated ScalarMul / ScalarMulBase / JointScalarMulBase / MultiScalarMul / AddUnified on secp256k1, P-256, BN254, BLS12-381 (P-384, BW6-761 thorough), with and without complete arithmetic; ECDSA secp256k1 / P-256; ECRecover; native twisted Edwards ScalarMul / DoubleBaseScalarMul / Add on 5 curves; native BLS12-377 G1 ScalarMul / ScalarMulBase and PairingCheck in BW6-761; emulated BN254 PairingCheck}, inputs incl. infinity, P = +-Q, scalars 0, 1, 2, r-1, r where the documentation admits them, valid and invalid signatures / pairing equations, fault tape)",
+        "quick": {"runs": 256, "budget_s": 330, "selftest_runs": 2, "params": {"faults": 8}},
+        "thorough": {"runs": 6000, "budget_s": 3000, "selftest_runs": 3, "params": {"faults": 24}},
+        "expect_probes": ["faulty_answer_rejected", "focused_hint_calls", "const-all", "emulated-element", "perturb-output", "misdirected", "replayed", "hint-error"],
+        "components": {"real": REAL + ["hint wrapper hook (constraint/verifhook and test/engine.go, -tags verif)", "std gadget code evaluated on the test engine (real gadget code; the constraint backend is the engine's big-integer evaluator)"], "stub": ["hint answers under fault (byzantine solver oracle)", "constraint backend for engine-evaluated cases (test engine instead of compiled solver)"]},
+        "assumptions": ["only the dishonest-prover clause (no choice of hint outputs yields a wrong group element or verdict) is decided; equality with the native result under honest hints is the baseline of the same runs", "inputs are restricted to each method's documented domain: without complete arithmetic no zero scalar, no (0,0) point and no result at infinity", "most cases are evaluated on the test engine: assertion semantics are the engine's, not the compiled constraints'"],
+    },
     "C06": {
         "engine": "c06",
         "level": "exploration",
